@@ -25,7 +25,7 @@ import tlc  # noqa: E402
 VERIF = os.path.dirname(os.path.dirname(os.path.abspath(__file__)))   # a `vp run` snapshot uses its own work directory
 WORK = os.environ.get("VERIF_WORK") or os.path.join(VERIF, "work")
 EVID = os.path.join(WORK, "evidence") if os.environ.get("VERIF_WORK") else os.path.join(VERIF, "evidence")
-CONF_CLAUSES: list[str] = []
+CONF_CLAUSES: list[str] = ["Inv_PROJ"]      # the projection itself must be well-formed, whatever the property
 # mechanism-level conformance clauses: evaluated by TLC on every event, reported as MODEL-DEVIATION diagnostics, never a verdict
 DIAGNOSTICS = ["Dev_MTS", "Dev_STRUCT", "Dev_IDS", "Dev_DEPTH", "Dev_IDX", "Dev_CACHE", "Dev_RET", "Dev_OUT", "Dev_XL", "Dev_ORACLE",
                "Dev_LOOPMECH"]
